@@ -373,58 +373,71 @@ func R37() Rule {
 		fn := c.P.MustFunc(core.PkgBttest, rpcRMW)
 		c.Fn(rpcRMW)
 		n := 0
-		for _, b := range fn.Blocks {
-			for _, in := range b.Instrs {
-				st, ok := in.(*ssa.Store)
-				if !ok {
-					continue
-				}
-				fa, ok := st.Addr.(*ssa.FieldAddr)
-				if !ok || !core.TypeIs(fa.X.Type(), pkgBtpb, "Cell") {
-					continue
-				}
-				if _, f, _ := core.FieldName(fa); f != "TimestampMicros" {
-					continue
-				}
-				n++
-				// backward slice of the timestamp
-				carried := false
-				seen := map[ssa.Value]bool{}
-				var walk func(v ssa.Value, d int)
-				walk = func(v ssa.Value, d int) {
-					v = core.Strip(v)
-					if d > 12 || seen[v] {
-						return
+		// the RPC and the per-rule helpers it is split into (the row helpers are anchors of their own)
+		rmwStop := map[string]bool{"appendOrReplaceCell": true, "getOrCreateFamily": true, "getOrCreateColumn": true, "(*table).getOrCreateRow": true, "(*table).updateRow": true, "scrubRow": true}
+		scope := c.P.Scope(fn, func(f *ssa.Function) bool { return core.PkgPathOf(f) != core.PkgBttest || rmwStop[core.FuncName(f)] })
+		within := setOf(scope)
+		for _, sf := range scope {
+			for _, b := range sf.Blocks {
+				for _, in := range b.Instrs {
+					st, ok := in.(*ssa.Store)
+					if !ok {
+						continue
 					}
-					seen[v] = true
-					switch x := v.(type) {
-					case *ssa.Phi:
-						if loopHeader(x.Block()) {
-							carried = true
+					fa, ok := st.Addr.(*ssa.FieldAddr)
+					if !ok || !core.TypeIs(fa.X.Type(), pkgBtpb, "Cell") {
+						continue
+					}
+					if _, f, _ := core.FieldName(fa); f != "TimestampMicros" {
+						continue
+					}
+					n++
+					// backward slice of the timestamp
+					carried := false
+					seen := map[ssa.Value]bool{}
+					var walk func(v ssa.Value, d int)
+					walk = func(v ssa.Value, d int) {
+						v = core.Strip(v)
+						if d > 12 || seen[v] {
 							return
 						}
-						for _, e := range x.Edges {
-							walk(e, d+1)
-						}
-					case *ssa.BinOp:
-						walk(x.X, d+1)
-						walk(x.Y, d+1)
-					case *ssa.Call:
-						if sc := x.Call.StaticCallee(); sc != nil && core.FuncName(sc) == "maxTimestamp" {
-							for _, a := range x.Call.Args {
-								walk(a, d+1)
+						seen[v] = true
+						switch x := v.(type) {
+						case *ssa.Phi:
+							if loopHeader(x.Block()) {
+								carried = true
+								return
 							}
-						}
-					case *ssa.UnOp:
-						if cell := core.CellOf(x.X); cell != nil {
-							for _, s := range core.StoresTo(cell) {
-								walk(s.Val, d+1)
+							for _, e := range x.Edges {
+								walk(e, d+1)
+							}
+						case *ssa.BinOp:
+							walk(x.X, d+1)
+							walk(x.Y, d+1)
+						case *ssa.Call:
+							if sc := x.Call.StaticCallee(); sc != nil && core.FuncName(sc) == "maxTimestamp" {
+								for _, a := range x.Call.Args {
+									walk(a, d+1)
+								}
+							}
+						case *ssa.UnOp:
+							if cell := core.CellOf(x.X); cell != nil {
+								for _, s := range core.StoresTo(cell) {
+									walk(s.Val, d+1)
+								}
+							}
+						case *ssa.Parameter:
+							// a helper's parameter: whatever the RPC passes for it
+							for _, o := range c.P.Origins(x, within) {
+								if o != ssa.Value(x) {
+									walk(o, d+1)
+								}
 							}
 						}
 					}
+					walk(st.Val, 0)
+					c.Check(!carried, "R37", fmt.Sprintf("ReadModifyWriteRow/cell-timestamp#%d", n), st.Pos(), "the new cell's timestamp is computed from the clock and that column's newest cell only", "the new cell's timestamp depends on a value carried over from the previous rule (a loop-carried variable): a future timestamp of one column leaks into cells written to other columns")
 				}
-				walk(st.Val, 0)
-				c.Check(!carried, "R37", fmt.Sprintf("ReadModifyWriteRow/cell-timestamp#%d", n), st.Pos(), "the new cell's timestamp is computed from the clock and that column's newest cell only", "the new cell's timestamp depends on a value carried over from the previous rule (a loop-carried variable): a future timestamp of one column leaks into cells written to other columns")
 			}
 		}
 		if n == 0 {
